@@ -56,6 +56,14 @@ CATALOGUE = {
     'C6': '=SUM(A1:B2 B1:C3)',
     'D6': '=SUM(A2:C2 B1:B3)',
     'A7': '=SUM(A1:B1:C2)',
+    # the range operator applied to written references that the tokenizer
+    # does not merge into one range (the cells in between are read as well)
+    'A14': '=SUM((A1:B1):C2)',
+    'B14': '=SUM(B1:(D2))+MAX((A2):C3)',
+    'C14': '=COUNT(S!A1:(S!C3))+SUM((A1:B2 B1:C3):D3)',
+    'D14': '=SUM((A1:B1,C2:D2))',
+    # (one operand computed, inside a written range)
+    'A15': '=SUM(A1:OFFSET(A1,1,2))',
     'B7': '=SUM(first_row)',
     'C7': '=one_cell*2',
     'D7': '=SUM(two_areas)',
@@ -102,9 +110,10 @@ def catalogue_spec(env, in_env):
     formulas = [f'S!{c}' for c in CATALOGUE] + ['S!A12', 'S!B12'] + \
         ['S!C13', 'S!D13'] + [f'T 2!{c}' for c in t2]
     return dict(
+        computed=['S!A15'],
         equiv=[('T 2!A2', 'T 2!B2'), ('T 2!A3', 'T 2!B3'),
                ('T 2!A4', 'T 2!B4'), ('T 2!A5', 'T 2!B5'),
-               ('S!B7', 'S!C13'), ('S!C7', 'S!D13')],
+               ('S!B7', 'S!C13'), ('S!C7', 'S!D13'), ('S!A14', 'S!A7'), ('S!A15', 'S!A7')],
         sheets={IN: insheet, 'S': cells, 'T 2': t2},
         arrays=[CATALOGUE_ARRAY],
         names={'one_cell': 'S!$A$1', 'first_row': 'S!$A$1:$D$1',
@@ -119,6 +128,7 @@ FORMS = [('absolute', r'\$'), ('sheet', r'!'), ('range', r'[A-D]\$?\d+:'),
          ('unbounded', r'!(A:A|B:B|1:1|A:B|2:3)'),
          ('name', r'one_cell|first_row|two_areas'),
          ('intersection', r'\d [A-D]\$?\d'), ('multicolon', r':[A-D]\d+:'),
+         ('range-operator', r'\):|:\('), ('union', r'\d,[A-D]\d'),
          ('rowcol', r'ROW\(|COLUMN\('), ('index', r'INDEX\('),
          ('lookup', r'VLOOKUP\(|MATCH\('), ('cond', r'IF\(|CHOOSE\(|IFERROR\(')]
 
@@ -190,7 +200,9 @@ def check_spec(rec, spec, label):
         if dep is None or dep not in model.cell_map:
             continue
         dcell = model.cell_map[dep]
-        if dcell.formula is None:
+        if dcell.formula is None or dep in spec.get('computed', ()):
+            # (computed references are outside the property; such cells are
+            # only compared with their written equivalents below)
             continue
         declared = [d.address for d in dcell.formula.needed_addresses]
         formula_text = formulas_text.get(dep, str(dcell.formula))
@@ -260,7 +272,7 @@ def check_spec(rec, spec, label):
                     # formula written with the name's definition
                     if not models.same_value(pert[x], pert[y]):
                         failure = (
-                            'name-differs-from-its-definition',
+                            'equivalent-forms-differ',
                             f'with {z} = {new!r}: {x} ({formulas_text.get(x)})'
                             f' = {pert[x]!r} but {y} '
                             f'({formulas_text.get(y)}) = {pert[y]!r}')
@@ -268,7 +280,8 @@ def check_spec(rec, spec, label):
                 if failure:
                     break
                 for x, v in pert.items():
-                    if models.same_value(v, base[x]):
+                    if models.same_value(v, base[x]) or \
+                            x in spec.get('computed', ()):
                         continue
                     rec.label('influences-observed')
                     xcell = model.cell_map.get(x)
